@@ -225,3 +225,6 @@ OBLIGATIONS = [
          bounds='one range; <= 2 chunks (+2 short reads) per attempt; <= 2 faults; start offset unbounded',
          encodes=['GetObjectTask._main', 'DownloadChunkIterator', 'StreamReaderProgress'], assumptions=['S1']),
 ]
+
+from harness.codownload import OB_DL, protocol as co_download_protocol  # noqa: E402
+OBLIGATIONS += [dict(OB_DL, id='C02.5', impl='co_download_protocol', cases=[('stream', 3, 4), ('seekable', 3, -1)])]
